@@ -29,7 +29,7 @@ RULE = (
     "per table (300..900 PSMs, tie-free features, spectrum multiplicity 1..4, rows shuffled or grouped by spectrum, "
     "dedup on/off, learners linear / svc / an order-sensitive online learner): baseline vs variants {each of the six chunk-size constants in "
     "{1,2,3,7,n-1,n,n+1,ceil(n/2), sizes leaving a 1-row last chunk}, workers {2,3,4,8,16} with seeded delays, "
-    "Parquet row groups {1,3,prime,n,default}, and Parquet or several workers combined with a chunk size}; env class: the same comparison with MOKAPOT_* variables in fresh "
+    "Parquet row groups {1,3,prime,n,default}, pairs of constants, and Parquet or several workers combined with a chunk size}; env class: the same comparison with MOKAPOT_* variables in fresh "
     "interpreters. Non-trivial = a variant whose chunk size is smaller than the table, or >1 worker with >=2 "
     "threads observed, or Parquet input; distinct = (table seed, variant)."
 )
@@ -181,13 +181,19 @@ def run_inproc(case):
         variants = []
         vals = chunk_values(rng, n)
         for k in range(case["nvar"]):
-            kind = ["chunk", "chunk", "parquet+chunk", "workers", "parquet", "chunk", "workers+chunk"][k % 7]
+            kind = ["chunk", "two_chunks", "parquet+chunk", "workers", "parquet", "two_chunks", "workers+chunk", "chunk"][k % 8]
             if kind == "chunk":
                 const = CONSTS[(case["index"] + k) % len(CONSTS)]
                 v = int(rng.choice(vals))
                 if const == "CHUNK_SIZE_COLUMNS_FOR_DROP_COLUMNS":
                     v = int(rng.integers(1, 26))
                 variants.append({"kind": "chunk", "const": const, "value": v})
+            elif kind == "two_chunks":
+                c1, c2 = [str(c) for c in rng.choice(CONSTS, size=2, replace=False)]
+                pair = {}
+                for c in (c1, c2):
+                    pair[c] = int(rng.integers(1, 26)) if c == "CHUNK_SIZE_COLUMNS_FOR_DROP_COLUMNS" else int(rng.choice(vals))
+                variants.append({"kind": "chunk", "const": c1, "value": pair[c1], "pair": pair})
             elif kind == "workers":
                 variants.append({"kind": "workers", "workers": int(rng.choice([2, 3, 4, 8, 16])), "delay": 0.003})
             elif kind == "parquet":
@@ -204,7 +210,7 @@ def run_inproc(case):
         for vi, v in enumerate(variants):
             spec = dict(common, dest=str(d / f"v{vi}"), workers=1, paths=[str(pin)])
             if v.get("const"):
-                spec["chunk_sizes"] = {v["const"]: v["value"]}
+                spec["chunk_sizes"] = dict(v.get("pair") or {v["const"]: v["value"]})
             if v["kind"] == "chunk":
                 pass
             elif v["kind"] == "workers":
